@@ -68,6 +68,11 @@ type Fault struct {
 	Step int    `json:"step"`
 	Arg  int64  `json:"arg,omitempty"`
 	Arg2 int64  `json:"arg2,omitempty"`
+	// Call/Nth (ioerr only, Step == 0): the fault hits the task's Nth call
+	// of kind Call instead of a step number - rare call kinds (open, rename,
+	// createx) get their share of faults next to the dominant reads.
+	Call string `json:"call,omitempty"`
+	Nth  int    `json:"nth,omitempty"`
 }
 
 // Segment is a run-length piece of a schedule.
@@ -109,6 +114,7 @@ type Task struct {
 	Data           interface{} // harness slot
 	TimeFaultSteps int         // steps of this task executed under a time fault (slow window or clock jump)
 	ioFault        *Fault      // I/O error addressed at the call being executed
+	kindCount      map[string]int
 	injected       bool        // the call being executed failed by injection
 }
 
@@ -398,7 +404,11 @@ func Enter(c Call) (be Backend, t *Task, ok bool) {
 		return s.FS, t, false
 	}
 	// the call now executes: advance the clock by its latency.
-	lat := int64(20000 + Hash4(s.Seed, "lat", uint64(t.ID), uint64(t.Steps))%1980000)
+	// 1-100 us per call: without a time fault every process is responsive
+	// and a whole run (<= MaxSteps calls) stays far below any deadline in
+	// the code; deadlines are exercised by the slow-process and clock-jump
+	// faults of S-TIME, not by accident.
+	lat := int64(1000 + Hash4(s.Seed, "lat", uint64(t.ID), uint64(t.Steps))%99000)
 	if sl, ok := s.slow[t.ID]; ok {
 		if int64(t.Steps) <= sl[1] {
 			lat *= sl[0]
@@ -422,6 +432,18 @@ func Enter(c Call) (be Backend, t *Task, ok bool) {
 	}
 	s.Now += lat
 	t.ioFault = s.faultAt(t, FaultIOErr)
+	if t.kindCount == nil {
+		t.kindCount = map[string]int{}
+	}
+	t.kindCount[c.Kind]++
+	if t.ioFault == nil {
+		for i := range s.Faults {
+			f := &s.Faults[i]
+			if f.Kind == FaultIOErr && f.Task == t.ID && f.Step == 0 && f.Call == c.Kind && f.Nth == t.kindCount[c.Kind] {
+				t.ioFault = f
+			}
+		}
+	}
 	t.injected = false
 	return s.FS, t, true
 }
